@@ -38,6 +38,10 @@ pub struct Test {
     /// function's positional parameters)
     #[serde(default)]
     pub in_function: bool,
+    /// 1: the whole test runs inside a loop body, 2: inside the condition of
+    /// an `if` (the parent's context stack is not empty when it forks)
+    #[serde(default)]
+    pub wrap: u8,
 }
 
 #[derive(Clone, Debug, Serialize, Deserialize)]
@@ -151,6 +155,7 @@ fn gen_test(rng: &mut Rng, n: &mut u32, id: &mut u32, depth: u32) -> Test {
         child2,
         nested,
         in_function,
+        wrap: *rng.pick(&[0u8, 0, 0, 0, 1, 2]),
     }
 }
 
@@ -184,6 +189,18 @@ fn join(m: &[String]) -> String {
 }
 
 fn render_test(t: &Test, out: &mut String) {
+    if t.wrap != 0 {
+        let mut body = String::new();
+        let mut plain = t.clone();
+        plain.wrap = 0;
+        render_test(&plain, &mut body);
+        if t.wrap == 1 {
+            out.push_str(&format!("for q{} in 1; do\n{}done\n", t.id, body));
+        } else {
+            out.push_str(&format!("if\n{}then :; fi\n", body));
+        }
+        return;
+    }
     if t.in_function {
         let mut body = String::new();
         let mut plain = t.clone();
@@ -475,6 +492,31 @@ fn check_test(t: &Test, snaps: &BTreeMap<String, SnapMap>, tolerant: bool, job_c
                         format!("asynchronous list {k} (no job control): {name} is {:?}, should be ignored", e.get(sig)),
                     ));
                 }
+            }
+        }
+        // the child's context stack is the parent's plus one subshell frame
+        // (the innermost frame of both snapshots is the probe itself)
+        if let (Some(bs), Some(es)) = (b.get("stack"), e.get("stack")) {
+            // (a pipeline element is two subshell levels below the shell)
+            let pf: Vec<&str> = bs.split(',').filter(|f| !f.is_empty()).collect();
+            let cf: Vec<&str> = es.split(',').filter(|f| !f.is_empty()).collect();
+            let outer = pf.len().saturating_sub(1);
+            let extra = cf.len().saturating_sub(pf.len());
+            let ok = cf.len() > pf.len()
+                && extra <= 2
+                && cf[..outer] == pf[..outer]
+                && cf[outer..outer + extra].iter().all(|f| *f == "Subshell")
+                && cf[outer + extra..] == pf[outer..];
+            let want = format!("{}{}Subshell,{}", pf[..outer].join(","), if outer > 0 { "," } else { "" }, pf[outer..].join(","));
+            if !ok {
+                return Some((
+                    "entry".into(),
+                    "entry:stack".into(),
+                    format!(
+                        "{:?} subshell {k}: on entry ({label}{k}) the context stack is [{es}], expected the parent's [{bs}] plus a subshell frame: [{want}]",
+                        t.kind
+                    ),
+                ));
             }
         }
         // the child must really be another process
